@@ -1,6 +1,7 @@
 package main
 
 import (
+	"go/types"
 	"os"
 	"fmt"
 	"strconv"
@@ -302,4 +303,73 @@ func onFreshStatement(e *Expr) *Expr {
 		c.Pats = append(c.Pats, np)
 	}
 	return &c
+}
+
+// synthesizeDefaults gives every exported function that has no contract, but can change the Code tree or
+// runs a callback (an addition to the API), the contract every builder has: non-nil receiver, well-formed
+// tree and arguments in, well-formed tree out. Only the callee preconditions and `post.tree` of such a unit
+// are obligations (it declares no frame); without it pkg#tree-invariant-api would have to reject the package.
+func (v *Verifier) synthesizeDefaults() []string {
+	if _, has := v.spec.recdefs["treeOK"]; !has {
+		return nil
+	}
+	cx := NewCtx(v.enc, v.spec, "synth")
+	cx.tree = cx.InitState("S")
+	if err := cx.computeTreeReads(); err != nil {
+		return []string{err.Error()}
+	}
+	reads := cx.recReads["treeOK"]
+	var errs []string
+	for _, f := range v.eff.all {
+		key := fnKey(f)
+		if !isExportedFn(f) || f.Synthetic != "" || v.contracts.byKey[key] != nil {
+			continue
+		}
+		e := v.eff.fns[f]
+		touches := e.Dynamic
+		for cn := range reads {
+			if e.W[cn] || e.A[cn] {
+				touches = true
+			}
+		}
+		if !touches {
+			continue
+		}
+		c := &Contract{Key: key, Invs: map[int][]*Clause{}, Flags: map[string]bool{"synthesized": true}, Props: []string{"C02", "C09", "C14"}}
+		add := func(kind, label, src string, unfold ...string) {
+			ex, err := ParseExpr(src)
+			if err != nil {
+				errs = append(errs, fmt.Sprintf("default contract of %s: %v", key, err))
+				return
+			}
+			cl := &Clause{Kind: kind, Label: label, Expr: ex, Src: src, Unfold: unfold, Props: []string{"C02"}}
+			if kind == "requires" {
+				c.Requires = append(c.Requires, cl)
+			} else {
+				c.Ensures = append(c.Ensures, cl)
+			}
+		}
+		for i, prm := range f.Params {
+			n := prm.Name()
+			if n == "" || n == "_" {
+				continue
+			}
+			if i == 0 && f.Signature.Recv() != nil {
+				if _, isPtr := prm.Type().Underlying().(*types.Pointer); isPtr {
+					add("requires", "recv", n+" != nil")
+				}
+				continue
+			}
+			if v.enc.SortOf(prm.Type()) == "Code" {
+				add("requires", "arg_"+n, "wfC("+n+")")
+			} else if sl, ok := prm.Type().Underlying().(*types.Slice); ok && v.enc.SortOf(sl.Elem()) == "Code" {
+				add("requires", "arg_"+n, fmt.Sprintf("forall j int :: { %s[j] } (0 <= j && j < len(%s)) ==> wfC(%s[j])", n, n, n))
+			}
+		}
+		add("requires", "tree", "treeOK()", "treeOK")
+		add("ensures", "tree", "treeOK()", "treeOK")
+		v.contracts.add(c)
+		fmt.Fprintf(os.Stderr, "jvc: note: exported function %s has no contract; checked against the default builder contract (tree invariant in, tree invariant out)\n", key)
+	}
+	return errs
 }
